@@ -23,6 +23,10 @@ pub struct SchedConvCase {
     pub enter_order: Option<Vec<usize>>,
     /// cut points of the client's byte stream into segments
     pub cuts: Vec<usize>,
+    /// C11: the handler of this request reads its body, then — still holding the request
+    /// unanswered — waits until the successor has been delivered
+    #[serde(default)]
+    pub hold_after_read: Option<usize>,
     pub tape: Vec<u8>,
 }
 
@@ -36,6 +40,7 @@ struct SlotSt {
     unknown: Vec<Request>,
     conn_done: bool,
     entered: Vec<bool>,
+    arrived: Vec<bool>,
 }
 
 pub struct SchedObs {
@@ -77,7 +82,7 @@ pub fn run_sched_conv(sc: &SchedConvCase) -> SchedObs {
             client.close_write();
         }
         let n = sc.case.conv.reqs.len();
-        let slots = Arc::new(Slots { st: rt::sync::Mutex::new(SlotSt { slots: (0..n).map(|_| None).collect(), unknown: vec![], conn_done: false, entered: vec![false; n] }), cv: rt::sync::Condvar::new() });
+        let slots = Arc::new(Slots { st: rt::sync::Mutex::new(SlotSt { slots: (0..n).map(|_| None).collect(), unknown: vec![], conn_done: false, entered: vec![false; n], arrived: vec![false; n] }), cv: rt::sync::Condvar::new() });
         let sink: Arc<StdMutex<Vec<Delivered>>> = Arc::new(StdMutex::new(vec![]));
         // connection task
         let s2 = slots.clone();
@@ -88,7 +93,10 @@ pub fn run_sched_conv(sc: &SchedConvCase) -> SchedObs {
                 let id = interp::parse_id(rq.url(), "00000000");
                 let mut st = s2.st.lock().unwrap();
                 match id.and_then(|id| ids.iter().position(|x| *x == id)) {
-                    Some(idx) if st.slots[idx].is_none() => st.slots[idx] = Some(rq),
+                    Some(idx) if st.slots[idx].is_none() && !st.arrived[idx] => {
+                        st.slots[idx] = Some(rq);
+                        st.arrived[idx] = true;
+                    }
                     _ => st.unknown.push(rq),
                 }
                 s2.cv.notify_all();
@@ -100,14 +108,15 @@ pub fn run_sched_conv(sc: &SchedConvCase) -> SchedObs {
         ph2.store(1, Ordering::SeqCst);
         // handler tasks
         let mut handlers = vec![];
-        for group in sc.groups.iter().cloned() {
+        for (gi, group) in sc.groups.iter().cloned().enumerate() {
             let s3 = slots.clone();
             let sink3 = sink.clone();
             let case3 = sc.case.clone();
             let es3 = es2.clone();
             let col3 = col2.clone();
             let client3 = client.clone();
-            let collect_first = sc.collect_first;
+            let collect_first = sc.collect_first && gi == 0;
+            let hold_after_read = sc.hold_after_read;
             let enter_order = sc.enter_order.clone();
             handlers.push(rt::thread::spawn(move || {
                 if collect_first {
@@ -115,7 +124,7 @@ pub fn run_sched_conv(sc: &SchedConvCase) -> SchedObs {
                     let st = s3.st.lock().unwrap();
                     let mut st = st;
                     loop {
-                        let have = group.iter().filter(|i| st.slots[**i].is_some()).count();
+                        let have = group.iter().filter(|i| st.arrived[**i]).count();
                         if have == group.len() || st.conn_done {
                             let mut c = col3.lock().unwrap();
                             c.0 = Some(have);
@@ -143,7 +152,22 @@ pub fn run_sched_conv(sc: &SchedConvCase) -> SchedObs {
                     let s4 = s3.clone();
                     let es4 = es3.clone();
                     let order = enter_order.clone();
+                    let hold = hold_after_read;
+                    let col4 = col3.clone();
+                    let client4 = client3.clone();
                     let before = move || {
+                        if hold == Some(idx) {
+                            // the body has been read to its end: the successor must now arrive
+                            // although this request is still unanswered
+                            let mut st = s4.st.lock().unwrap();
+                            while idx + 1 < st.slots.len() && !st.arrived[idx + 1] && !st.conn_done {
+                                st = s4.cv.wait(st).unwrap();
+                            }
+                            let have = if idx + 1 < st.slots.len() && st.arrived[idx + 1] { 1 } else { 0 };
+                            let mut c = col4.lock().unwrap();
+                            c.0 = Some(have);
+                            c.1 = Some(client4.output_len());
+                        }
                         if let Some(order) = &order {
                             // wait until the handler that precedes us in the chosen order entered
                             if let Some(pos) = order.iter().position(|x| *x == idx) {
@@ -298,7 +322,7 @@ pub fn c01_strategy() -> BoxedStrategy<SchedConvCase> {
             let groups = partition_groups(n, mask);
             let own_tasks = groups.len() == n;
             let script = vec![Step::Send { from: 0, to: 0 }, Step::HalfClose];
-            SchedConvCase { case: ConvCase { conv, progs, script, transport: Transport::Mem }, groups, collect_first: false, enter_order: if own_tasks { order } else { None }, cuts, tape }
+            SchedConvCase { case: ConvCase { conv, progs, script, transport: Transport::Mem }, groups, collect_first: false, enter_order: if own_tasks { order } else { None }, cuts, hold_after_read: None, tape }
         })
         .boxed()
 }
@@ -342,4 +366,116 @@ pub fn simple_conv(n: usize) -> Conversation {
         conv.reqs.push(ReqSpec::simple(i as u32));
     }
     conv
+}
+
+// ------------------------------------------------------------------------------------------
+// C11: read-ahead
+
+fn is_streamed(f: &Framing) -> bool {
+    matches!(f, Framing::Length { n } if *n > 1024) || matches!(f, Framing::Chunked { .. })
+}
+
+pub fn c11_strategy() -> BoxedStrategy<SchedConvCase> {
+    let small_body = prop_oneof![3 => Just(Framing::None), 2 => Just(Framing::Length { n: 1024 }), 2 => (1usize..=1024).prop_map(|n| Framing::Length { n }), 1 => Just(Framing::Length { n: 1 })];
+    let streamed = prop_oneof![
+        2 => prop_oneof![Just(1025usize), Just(2000usize), Just(9000usize)].prop_map(|n| Framing::Length { n }),
+        2 => prop_oneof![Just(1usize), Just(700usize), Just(3000usize)].prop_flat_map(gen::chunks_strategy).prop_map(|chunks| Framing::Chunked { chunks, last_zeros: 0, last_ext: None }),
+    ];
+    (
+        proptest::collection::vec(small_body, 2..=8),
+        proptest::option::weighted(0.5, (any::<proptest::sample::Index>(), streamed, 0u8..3)),
+        proptest::collection::vec(0usize..3000, 0..3),
+        tape_strategy(200),
+    )
+        .prop_map(|(smalls, streamed, cuts, tape)| {
+            let mut framings: Vec<Framing> = smalls;
+            let n = framings.len();
+            let mut mode = 0u8;
+            let mut spos = None;
+            if let Some((at, f, m)) = streamed {
+                let p = at.index(n);
+                framings[p] = f;
+                spos = Some(p);
+                mode = m;
+            }
+            let mut conv = Conversation::default();
+            let mut progs = vec![];
+            for (i, f) in framings.iter().cloned().enumerate() {
+                let has_body = !matches!(f, Framing::None);
+                conv.reqs.push(gen::build_req(i as u32, if has_body { "POST".into() } else { "GET".into() }, String::new(), "HTTP/1.1", vec![Hdr::new("Host", "h")], f.clone(), None, 1, 0, None, false));
+                let read = if is_streamed(&f) { ReadPlan::ToEof { buf: 900, extra: 0 } } else if has_body && i % 2 == 0 { ReadPlan::ToEof { buf: 300, extra: 0 } } else { ReadPlan::None };
+                progs.push(Prog { read, finish: Finish::Respond { status: 200, body_len: 5, declared: true, threshold: None } });
+            }
+            let script = vec![Step::Send { from: 0, to: 0 }, Step::HalfClose];
+            let case = ConvCase { conv, progs, script, transport: Transport::Mem };
+            // what must be obtainable while nothing has been answered: everything up to and
+            // including the first request with a streamed body
+            let avail = spos.map(|p| p + 1).unwrap_or(n);
+            match (spos, mode) {
+                (Some(p), 1) if p + 1 < n => {
+                    // read the streamed body to its end, keep the request, take the successor
+                    let mut groups: Vec<Vec<usize>> = vec![(0..=p).collect()];
+                    groups.push((p + 1..n).collect());
+                    SchedConvCase { case, groups, collect_first: false, enter_order: None, cuts, hold_after_read: Some(p), tape }
+                }
+                (Some(p), 2) if p + 1 < n => {
+                    // answer the streamed one (its handler reads the body), successors follow: plain pipeline on two tasks
+                    let groups: Vec<Vec<usize>> = vec![(0..=p).collect(), (p + 1..n).collect()];
+                    SchedConvCase { case, groups, collect_first: false, enter_order: None, cuts, hold_after_read: None, tape }
+                }
+                _ => {
+                    // collect `avail` requests before answering any
+                    let mut groups: Vec<Vec<usize>> = vec![(0..avail).collect()];
+                    if avail < n {
+                        groups.push((avail..n).collect());
+                    }
+                    SchedConvCase { case, groups, collect_first: true, enter_order: None, cuts, hold_after_read: None, tape }
+                }
+            }
+        })
+        .boxed()
+}
+
+pub fn c11_oracle(sc: &SchedConvCase, so: &SchedObs) -> vcore::runner::Verdict {
+    use vcore::runner::{fail, Good, Verdict};
+    let class = if sc.hold_after_read.is_some() { "hold-after-body-read" } else if sc.collect_first { "collect-before-answering" } else { "answer-streamed-then-successors" };
+    if let Some(v) = exec_trouble("C11", class, so) {
+        return v;
+    }
+    let k = sc.groups[0].len();
+    if sc.collect_first {
+        match (so.delivered_when_collected, so.out_len_when_collected) {
+            (Some(h), Some(o)) => {
+                if h != k {
+                    return fail("C11/collect-before-answering/not-all-available", format!("only {} of {} pipelined requests became available while none was answered", h, k));
+                }
+                if o != 0 {
+                    return fail("C11/collect-before-answering/harness", format!("{} response bytes already written", o));
+                }
+            }
+            _ => return fail("C11/collect-before-answering/harness", "collector did not report".to_string()),
+        }
+    }
+    if let Some(p) = sc.hold_after_read {
+        if so.delivered_when_collected != Some(1) {
+            return fail("C11/hold-after-body-read/successor-not-delivered", format!("request {} had its body read to the end, yet its successor did not arrive while it was unanswered", p));
+        }
+    }
+    // and the whole pipeline is served normally afterwards
+    let exp = expect(&sc.case);
+    if let Err(v) = prefix("C11", comp_delivery_sequence(&sc.case, &exp, &so.obs)) {
+        return v;
+    }
+    if let Err(v) = prefix("C11", comp_bodies(&sc.case, &so.obs)) {
+        return v;
+    }
+    let view = client_view(&so.obs.client, &exp);
+    if let Err(v) = prefix("C11", comp_client_stream(&exp, &so.obs, &view, exp.msgs.len(), false)) {
+        return v;
+    }
+    let held = if sc.collect_first { k } else { 2 };
+    let edge = sc.case.conv.reqs.iter().any(|r| matches!(r.framing, Framing::Length { n } if n == 1024 || n == 1025));
+    let mut g = if held >= 2 { Good { nontrivial: Some(so.exec.stats.trace_hash), classes: vec![], extra_evals: 0 } } else { Good::trivial() };
+    g = g.class(class).class(format!("held={}", held.min(8))).class_if(edge, "1024/1025-edge").class_if(so.exec.stats.preemptions > 0, "preempted").class_if(sc.case.conv.reqs.iter().any(|r| matches!(r.framing, Framing::Chunked { .. })), "chunked");
+    Verdict::Pass(g)
 }
